@@ -425,7 +425,7 @@ impl Property for C14 {
         }
         // (2) named catalog entries on another peer's result must be rejected
         let must = trep.labels.iter().find(|l| l.contains("(foreign)") && MUST_REJECT.iter().any(|m| l.starts_with(m)));
-        let must = must.or_else(|| trep.labels.iter().find(|l| l.starts_with("dangling-trace-cid") || l.starts_with("garbage-cid-text")));
+        let must = must.or_else(|| trep.labels.iter().find(|l| l.starts_with("dangling-trace-cid") || l.starts_with("garbage-cid-text") || l.starts_with("rewrite-")));
         // (with two operations the second may undo the first: only single operations are judged here)
         let must = if trep.labels.len() == 1 && ops.len() == 1 { must } else { None };
         if let Some(l) = must {
@@ -437,6 +437,10 @@ impl Property for C14 {
         // (1) whatever was accepted: results attributed to others are genuine
         if is_new_data(o.ret_code) {
             if let Ok(d) = decode_data(&o.data) {
+                // and every stored item still is what its content id says (nothing rewritten under a known id)
+                if let Err(e) = closure_check(&d.data) {
+                    return CaseResult::Violation(mk("C14:content-rewritten-under-known-cid", format!("after tampering ({:?}) the victim's own data is no longer content-consistent: {}", trep.labels, e)), rep);
+                }
                 for (p, m) in multisets(&d.data) {
                     // the attacker answers for its own results; the victim may produce results of its
                     // own in this very run (e.g. canonicalize a stream that holds the attacker's value)
